@@ -169,7 +169,9 @@ func c12ExactlyOne(c *Ctx, add *ssa.Function) {
 		if !cs.Block().Dominates(countBlk) && !countBlk.Dominates(cs.Block()) {
 			okP, why2 = false, "Counts and Total are updated in unrelated blocks"
 		}
-		exit := func(b *ssa.BasicBlock) bool { return b == countBlk || b == cs.Block() || b.Dominates(countBlk) && loopHeaderOf(b) == nil }
+		exit := func(b *ssa.BasicBlock) bool {
+			return b == countBlk || b == cs.Block() || b.Dominates(countBlk) && loopHeaderOf(b) == nil
+		}
 		// bound false → exit
 		if !exit(ifB.Block().Succs[1]) {
 			okP, why2 = false, "running out of bounds does not fall through to the last (overflow) bucket"
